@@ -33,6 +33,9 @@ def enq_op(queues):
         "op": st.just("enq"), "q": st.sampled_from(queues), "topic": st.sampled_from(TOPICS), "prio": st.sampled_from([0, 5, 9]),
         "delay": delay, "payload": PAYLOAD, "client": st.sampled_from(["p0", "c0"]), "cancel_after": cancel(),
         "retries": st.integers(0, 3),
+        # some messages carry a time-to-live that may run out while they wait or are held: an expired message is dead-lettered
+        # when a consumer meets it - one place like any other
+        "ttl": st.sampled_from([None, None, None, None, None, None, 0.3, 1.0, 5.0]),
     })
 
 
